@@ -119,6 +119,7 @@ class Changing(io.BytesIO):
 SWAP_TO = assemble(call_sink + [op("STOP")])
 DELIVER = [("BytesIO", lambda d: io.BytesIO(d)), ("non-seekable", lambda d: NonSeekable(d)), ("changing-after-first-pass", lambda d: Changing(d, SWAP_TO))]
 fails, n = [], 0
+OTHER_ERRORS = {}
 
 
 def verdict_of(data):
@@ -187,12 +188,14 @@ for iname, data in INPUTS:
                 elif str(val.info.get("severity")) != v.name:
                     fails.append(dict(case, kind="wrong-verdict-in-error", what=f"UnsafeFileError carries severity {val.info.get('severity')!r}, the verdict is {v.name}"))
             else:
-                if kind != "returned":
-                    fails.append(dict(case, kind="refused-though-accepted", what=f"verdict {v.name} is within the threshold {thr.name} but the load {kind}: {val!r:.100}"))
+                if kind == "unsafe-file-error":
+                    fails.append(dict(case, kind="refused-though-accepted", what=f"verdict {v.name} is within the threshold {thr.name} but the load raised the unsafe-file error: {val!r:.100}"))
+                elif kind != "returned":
+                    OTHER_ERRORS[type(val).__name__] = OTHER_ERRORS.get(type(val).__name__, 0) + 1      # failing for another reason is not excluded by the statement
                 else:
                     want = stock(data)
                     if not (val == want) and repr(val) != repr(want):
                         fails.append(dict(case, kind="other-bytes-loaded", what=f"returned {val!r:.80}; the stock unpickler gives {want!r:.80} for the bytes that were analysed"))
 hook.remove_hook()
-print(json.dumps({"bounded": True, "inputs": len(INPUTS), "runs": n, "n_failures": len(fails),
+print(json.dumps({"bounded": True, "inputs": len(INPUTS), "runs": n, "accepted_but_failed_for_another_reason": OTHER_ERRORS, "n_failures": len(fails),
                   "failures": spread(fails, lambda f: (f["kind"], f["way"].split("(")[0], f["delivery"]), per=3)}, default=str))
